@@ -2,3 +2,18 @@
 //! module without changing any visibility in the repository.
 #![allow(dead_code, unused_imports)]
 use super::*;
+
+/// FileState built literally (private fields), version fixed: `FileState::new` parses the crate
+/// version string, which is irrelevant to the journal's index bookkeeping.
+pub fn new_state(path: &str, persister: Arc<PersisterKind>) -> FileState {
+    FileState {
+        current_index: AtomicU64::new(0),
+        entries_count: AtomicU64::new(0),
+        current_leader: AtomicU32::new(0),
+        term: AtomicU64::new(0),
+        version: 1,
+        path: path.into(),
+        persister,
+        encryptor: None,
+    }
+}
